@@ -213,12 +213,9 @@ pub fn query_vars(
     let mut client = GameSpy3::new(address, timeout_settings)?;
     let packets = client.get_server_packets()?;
 
-    let mut vars = HashMap::new();
-
-    for packet in &packets {
-        let (key_values, _remaining_data) = data_to_map(packet)?;
-        vars.extend(key_values);
-    }
+    // The variables are at the start of the first packet, what follows them (and the other
+    // packets) are the player and team sections
+    let (vars, _remaining_data) = data_to_map(packets.first().ok_or(GDErrorKind::PacketBad)?)?;
 
     Ok(vars)
 }
